@@ -258,10 +258,10 @@ def gen_headers(tree, consts):
                         shape.append("%d%s:" % (d + 1, fld))
                         walk(sub, d + 2)
     walk(body_no_doc(fn), 0)
-    expected = ("0Assign 0AnnAssign 0AnnAssign 0AnnAssign 0AnnAssign 0For 1body: 2Expr 2Expr 2If 3body: 4If 5body: 6Raise 4If 5body: 6Raise "
-                "4If 5body: 6Raise 4Expr 4If 5body: 6Assign 5orelse: 6If 7body: 8Assign 7orelse: 8If 9body: 10Assign 3orelse: 4Assign 4If "
-                "5body: 6Try 7body: 8Assign 8If 9body: 10Raise 7except 8Raise 6If 7body: 8Assign 5orelse: 6If 7body: 8Raise 0Assign 0If "
-                "1body: 2Raise 0If 1body: 2If 3body: 4Raise 2If 3body: 4Raise")
+    expected = ("0Assign 0AnnAssign 0AnnAssign 0AnnAssign 0AnnAssign 0AnnAssign 0For 1body: 2Expr 2Expr 2If 3body: 4If 5body: 6Raise 4If 5body: "
+                "6Raise 4If 5body: 6Raise 4Expr 4If 5body: 6Assign 5orelse: 6If 7body: 8Assign 7orelse: 8If 9body: 10Assign 3orelse: "
+                "4Assign 4If 5body: 6Try 7body: 8Assign 8If 9body: 10Raise 7except 8Raise 6If 7body: 8Raise 6Assign 6If 7body: 8Assign "
+                "5orelse: 6If 7body: 8Raise 0Assign 0If 1body: 2Raise 0If 1body: 2If 3body: 4Raise 2If 3body: 4Raise")
     need(" ".join(shape) == expected, "validate_headers changed shape; the hand model must be re-examined:\n  " + " ".join(shape))
     out = ""
     # startswith prefix
@@ -326,6 +326,28 @@ def gen_headers(tree, consts):
     need(len(st_if) == 1 and len(st_if[0].body) == 1 and isinstance(st_if[0].body[0], ast.Assign)
          and isinstance(st_if[0].body[0].targets[0], ast.Attribute) and st_if[0].body[0].targets[0].attr == "expected_content_length"
          and isinstance(st_if[0].body[0].value, ast.Name) and st_if[0].body[0].value.id == clvar, "expected_content_length store")
+    # if seen_content_length is not None and content_length != seen_content_length: raise MessageError
+    # seen_content_length = content_length          (directly after the try statement)
+    parent = [n for n in ast.walk(fn) if isinstance(n, ast.If) and t in n.body]
+    need(len(parent) == 1 and parent[0].body.index(t) == 0 and len(parent[0].body) == 4, "content-length branch shape")
+    dup, store = parent[0].body[1], parent[0].body[2]
+    need(isinstance(store, ast.Assign) and isinstance(store.targets[0], ast.Name) and isinstance(store.value, ast.Name)
+         and store.value.id == clvar, "seen_content_length store")
+    seen = store.targets[0].id
+    inits = [n for n in body_no_doc(fn) if isinstance(n, ast.AnnAssign) and isinstance(n.target, ast.Name) and n.target.id == seen]
+    need(len(inits) == 1 and isinstance(inits[0].value, ast.Constant) and inits[0].value.value is None, seen + " is not initialised to None")
+    need(len([n for n in ast.walk(fn) if isinstance(n, ast.Name) and n.id == seen and isinstance(n.ctx, ast.Store)]) == 2,
+         seen + " is assigned elsewhere")
+    tst = dup.test
+    need(isinstance(dup, ast.If) and not dup.orelse and len(dup.body) == 1 and is_raise_message_error(dup.body[0])
+         and isinstance(tst, ast.BoolOp) and isinstance(tst.op, ast.And) and len(tst.values) == 2, "conflicting content-length check shape")
+    a, b = tst.values
+    need(isinstance(a, ast.Compare) and isinstance(a.left, ast.Name) and a.left.id == seen and len(a.ops) == 1
+         and isinstance(a.ops[0], ast.IsNot) and isinstance(a.comparators[0], ast.Constant) and a.comparators[0].value is None,
+         "`seen_content_length is not None` expected")
+    need(isinstance(b, ast.Compare) and isinstance(b.left, ast.Name) and isinstance(b.comparators[0], ast.Name) and len(b.ops) == 1
+         and {b.left.id, b.comparators[0].id} == {clvar, seen}, "`content_length <op> seen_content_length` expected")
+    out += "Definition gen_cl_conflict (n m : Z) : bool := %s.\n" % Tr(consts, {clvar: "n", seen: "m"}).b(b)
     # scheme in (b"http", b"https")
     sch = [n for n in ast.walk(fn) if isinstance(n, ast.Compare) and isinstance(n.left, ast.Name) and n.left.id == "scheme"]
     need(len(sch) == 1 and isinstance(sch[0].ops[0], ast.In) and isinstance(sch[0].comparators[0], ast.Tuple)
@@ -364,8 +386,8 @@ def gen_wrapper(tree, name, passes_stream):
     return out
 
 
-def render():
-    tree = ast.parse(open(SRC).read())
+def render(text):
+    tree = ast.parse(text)
     consts = module_consts(tree)
     out = ["(* GENERATED by tools/gen/c15_tables.py from src/aioquic/h3/connection.py -- do not edit *)",
            "From Coq Require Import ZArith List Bool.", "Import ListNotations.", "Open Scope Z_scope.", ""]
@@ -387,16 +409,219 @@ def render():
     return "\n".join(out) + "\n"
 
 
+# The fragment of connection.py this translator (and the hand model) was written against.  It is used ONLY when the
+# current source cannot be translated: the model then still builds from these tables (so that the shared extraction
+# driver and the implementation oracle keep running), but `gen_ok` is false, which breaks
+# coq/proofs/H3ValidateProofs.v (lemma gen_ok_true) and with it every theorem of coq/props/C15.v: fail closed.
+SNAPSHOT = '''
+COLON = 0x3A
+NUL = 0x00
+LF = 0x0A
+CR = 0x0D
+SP = 0x20
+HTAB = 0x09
+WHITESPACE = (SP, HTAB)
+
+class ErrorCode(IntEnum):
+    H3_DATAGRAM_ERROR = 0x33
+    H3_NO_ERROR = 0x100
+    H3_GENERAL_PROTOCOL_ERROR = 0x101
+    H3_INTERNAL_ERROR = 0x102
+    H3_STREAM_CREATION_ERROR = 0x103
+    H3_CLOSED_CRITICAL_STREAM = 0x104
+    H3_FRAME_UNEXPECTED = 0x105
+    H3_FRAME_ERROR = 0x106
+    H3_EXCESSIVE_LOAD = 0x107
+    H3_ID_ERROR = 0x108
+    H3_SETTINGS_ERROR = 0x109
+    H3_MISSING_SETTINGS = 0x10A
+    H3_REQUEST_REJECTED = 0x10B
+    H3_REQUEST_CANCELLED = 0x10C
+    H3_REQUEST_INCOMPLETE = 0x10D
+    H3_MESSAGE_ERROR = 0x10E
+    H3_CONNECT_ERROR = 0x10F
+    H3_VERSION_FALLBACK = 0x110
+    QPACK_DECOMPRESSION_FAILED = 0x200
+    QPACK_ENCODER_STREAM_ERROR = 0x201
+    QPACK_DECODER_STREAM_ERROR = 0x202
+
+
+class ProtocolError(Exception):
+    """
+    Base class for protocol errors.
+
+    These errors are not exposed to the API user, they are handled
+    in :meth:`H3Connection.handle_event`.
+    """
+
+    error_code = ErrorCode.H3_GENERAL_PROTOCOL_ERROR
+
+    def __init__(self, reason_phrase: str = ""):
+        self.reason_phrase = reason_phrase
+
+
+class MessageError(ProtocolError):
+    error_code = ErrorCode.H3_MESSAGE_ERROR
+
+
+def validate_header_name(key: bytes) -> None:
+    """
+    Validate a header name as specified by RFC 9113 section 8.2.1.
+    """
+    for i, c in enumerate(key):
+        if c <= 0x20 or (c >= 0x41 and c <= 0x5A) or c >= 0x7F:
+            raise MessageError("Header %r contains invalid characters" % key)
+        if c == COLON and i != 0:
+            # Colon not at start, definitely bad.  Keys starting with a colon
+            # will be checked in pseudo-header validation code.
+            raise MessageError("Header %r contains a non-initial colon" % key)
+
+
+def validate_header_value(key: bytes, value: bytes):
+    """
+    Validate a header value as specified by RFC 9113 section 8.2.1.
+    """
+    for c in value:
+        if c == NUL or c == LF or c == CR:
+            raise MessageError("Header %r value has forbidden characters" % key)
+    if len(value) > 0:
+        first = value[0]
+        if first in WHITESPACE:
+            raise MessageError("Header %r value starts with whitespace" % key)
+        if len(value) > 1:
+            last = value[-1]
+            if last in WHITESPACE:
+                raise MessageError("Header %r value ends with whitespace" % key)
+
+
+def validate_headers(
+    headers: Headers,
+    allowed_pseudo_headers: FrozenSet[bytes],
+    required_pseudo_headers: FrozenSet[bytes],
+    stream: Optional["H3Stream"] = None,
+) -> None:
+    after_pseudo_headers = False
+    authority: Optional[bytes] = None
+    path: Optional[bytes] = None
+    scheme: Optional[bytes] = None
+    seen_content_length: Optional[int] = None
+    seen_pseudo_headers: Set[bytes] = set()
+    for key, value in headers:
+        validate_header_name(key)
+        validate_header_value(key, value)
+
+        if key.startswith(b":"):
+            # pseudo-headers
+            if after_pseudo_headers:
+                raise MessageError(
+                    "Pseudo-header %r is not allowed after regular headers" % key
+                )
+            if key not in allowed_pseudo_headers:
+                raise MessageError("Pseudo-header %r is not valid" % key)
+            if key in seen_pseudo_headers:
+                raise MessageError("Pseudo-header %r is included twice" % key)
+            seen_pseudo_headers.add(key)
+
+            # store value
+            if key == b":authority":
+                authority = value
+            elif key == b":path":
+                path = value
+            elif key == b":scheme":
+                scheme = value
+        else:
+            # regular headers
+            after_pseudo_headers = True
+            # a few more semantic checks
+            if key == b"content-length":
+                try:
+                    content_length = int(value)
+                    if content_length < 0:
+                        raise ValueError
+                except ValueError:
+                    raise MessageError("content-length is not a non-negative integer")
+                if (
+                    seen_content_length is not None
+                    and content_length != seen_content_length
+                ):
+                    raise MessageError("conflicting content-length values")
+                seen_content_length = content_length
+                if stream:
+                    stream.expected_content_length = content_length
+            elif key == b"transfer-encoding" and value != b"trailers":
+                raise MessageError(
+                    "The only valid value for transfer-encoding is trailers"
+                )
+
+    # check required pseudo-headers are present
+    missing = required_pseudo_headers.difference(seen_pseudo_headers)
+    if missing:
+        raise MessageError("Pseudo-headers %s are missing" % sorted(missing))
+
+    if scheme in (b"http", b"https"):
+        if not authority:
+            raise MessageError("Pseudo-header b':authority' cannot be empty")
+        if not path:
+            raise MessageError("Pseudo-header b':path' cannot be empty")
+
+
+def validate_push_promise_headers(headers: Headers) -> None:
+    validate_headers(
+        headers,
+        allowed_pseudo_headers=frozenset(
+            (b":method", b":scheme", b":authority", b":path")
+        ),
+        required_pseudo_headers=frozenset(
+            (b":method", b":scheme", b":authority", b":path")
+        ),
+    )
+
+
+def validate_request_headers(
+    headers: Headers, stream: Optional["H3Stream"] = None
+) -> None:
+    validate_headers(
+        headers,
+        allowed_pseudo_headers=frozenset(
+            # FIXME: The pseudo-header :protocol is not actually defined, but
+            # we use it for the WebSocket demo.
+            (b":method", b":scheme", b":authority", b":path", b":protocol")
+        ),
+        required_pseudo_headers=frozenset((b":method", b":authority")),
+        stream=stream,
+    )
+
+
+def validate_response_headers(
+    headers: Headers, stream: Optional["H3Stream"] = None
+) -> None:
+    validate_headers(
+        headers,
+        allowed_pseudo_headers=frozenset((b":status",)),
+        required_pseudo_headers=frozenset((b":status",)),
+        stream=stream,
+    )
+
+
+def validate_trailers(headers: Headers) -> None:
+    validate_headers(
+        headers,
+        allowed_pseudo_headers=frozenset(),
+        required_pseudo_headers=frozenset(),
+    )
+
+'''
+
+
 def generate():
     try:
-        text = render()
-    except GenError:
-        # fail closed: remove a stale file so that dependants do not build against old tables
-        try:
-            os.remove(OUT)
-        except FileNotFoundError:
-            pass
-        raise
+        text = render(open(SRC).read())
+        text += "\n(* the tables above were translated from the current source *)\nDefinition gen_ok : bool := true.\n"
+    except (GenError, SyntaxError, OSError) as e:
+        text = render(SNAPSHOT)
+        text += ("\n(* TRANSLATION OF THE CURRENT SOURCE FAILED: %s\n   the tables above come from the snapshot inside "
+                 "tools/gen/c15_tables.py; no theorem of C15 holds for the current source. *)\n"
+                 "Definition gen_ok : bool := false.\n" % cm(str(e))[:1500])
     os.makedirs(os.path.dirname(OUT), exist_ok=True)
     try:
         if open(OUT).read() == text:
